@@ -155,6 +155,7 @@ SPECS["C09"] = dict(
     rule="TODO",
     jobs=[
         rapid("TestC09Session", 350, 10000, sq=6, st=16),
+        rapid("TestC09EncoderIDs", 3000, 100000, sq=1, st=8),
         plain("TestC09Entropy", sq=1, st=1, env={"C09_ENTROPY_DRAWS": {Q: 1 << 18, T: 1 << 22}}),
     ],
 )
